@@ -56,12 +56,12 @@ theorem valid_iff_has_score (sc : Sc) (st : St) (x y : List Nat) (ops : List Op)
 /-! ### Non-vacuity: concrete instances for each mode (unit scores: match 1, mismatch −1, go −5, ge −1) -/
 
 def scU : Sc := ⟨fun a b => if a = b then 1 else -1, -5, -1⟩
-def clGlobal : Clip := ⟨AlignCodec.minScore, AlignCodec.minScore, AlignCodec.minScore, AlignCodec.minScore⟩
-def clSemi : Clip := ⟨AlignCodec.minScore, AlignCodec.minScore, 0, 0⟩
+def clGlobal : Clip := ⟨minScore, minScore, minScore, minScore⟩
+def clSemi : Clip := ⟨minScore, minScore, 0, 0⟩
 def clLocal : Clip := ⟨0, 0, 0, 0⟩
 
 -- custom, asymmetric clips: x = ACCA, y = CC, x prefix clip −1, x suffix clip −2: Xclip(1) M M Xclip(1), score 2−1−2 = −1
-example : accept scU ⟨-1, -2, AlignCodec.minScore, AlignCodec.minScore⟩ false [0, 1, 1, 0] [1, 1]
+example : accept scU ⟨-1, -2, minScore, minScore⟩ false [0, 1, 1, 0] [1, 1]
     ⟨-1, 1, 3, 0, 2, 4, 2, [.xclip 1, .core .mat, .core .mat, .xclip 1]⟩ = true := by decide +kernel
 -- global: x = ACA, y = AA: M I M = 1 − 6 + 1
 example : accept scU clGlobal false [0, 1, 0] [0, 0] ⟨-4, 0, 3, 0, 2, 3, 2, [.core .mat, .core .ins, .core .mat]⟩ = true := by
